@@ -309,6 +309,8 @@ class Renderer:
                 body.append(f"{v['name']} = {var_value(self.spec, self.variant, v['name'])}")
                 if "datetime." in body[-1]:
                     imports.add("import datetime")
+                if "math." in body[-1]:
+                    imports.add("import math")
         if self.variant.get("unrel") and mod == self.spec["modules"][-1]:
             body.append("UNRELATED_VAR = %d" % self.variant["unrel"])
         for idx, f in enumerate(fs):
@@ -453,7 +455,25 @@ class Cone:
         for n, a in kwargs:
             vals[n] = a
         out = []
-        for p, d in params:
+
+        def litval(a):
+            if "lit" in a:
+                return self.r.epv(a["lit"])
+            if "ep" in a:
+                ep = next(e for e in self.spec["eps"] if e["id"] == a["ep"])
+                return ep["values"][self.variant.get(a["ep"], 0)]
+            return None
+        named = {p for p, _ in params}
+        for pi, (p, d) in enumerate(params):
+            if p.startswith("*"):
+                # catch-all parameters: every surplus positional / every keyword that names no parameter
+                extra = [(n, a) for n, a in kwargs if n not in named] if p.startswith("**") else [(None, a) for a in args[pi:]]
+                lits = [(n, litval(a)) for n, a in extra]
+                if any(v is None for _, v in lits) or (not extra and p.startswith("**")):
+                    static = False
+                else:
+                    out.append(("S", tuple(lits)))
+                continue
             if p in vals:
                 a = vals[p]
                 if "lit" in a:
